@@ -485,6 +485,99 @@ theorem wf_reachable_book (ops : List BookOp) (b : Book) (h : BookOk b)
       have := maxRelNum_sublist' hs2 0
       exact ih b' hok (by omega) (by omega)
 
+/-- the whole modelled class list: sheet operations on the workbook, part bookkeeping
+(addPart(kind) = relationship on the owning sheet + content-type registration; deletion of a
+table / picture / comment part = relationship removal + Override removal) and CopySheet's
+relationship copy. `srels` is the relationship list of one worksheet. -/
+inductive AllOp where
+  | newSheet (name : Str)
+  | deleteSheet (name : Str)
+  | addRel (ty tg md : Str)
+  | deleteRel (rid : Str)
+  | addContentTypePart (index : Int) (kind : Str)
+  | removeContentTypesPart (ctype part : Str)
+  | copyRels
+
+def stepAll (s : Book × List Rel) : AllOp → Out (Book × List Rel)
+  | .newSheet n => .ok (newSheet s.1 n, s.2)
+  | .deleteSheet n => (deleteSheet s.1 n).bind fun b' => .ok (b', s.2)
+  | .addRel ty tg md => .ok (s.1, (addRels s.2 ty tg md).1)
+  | .deleteRel rid => (deleteRel s.2 rid).bind fun r => .ok (s.1, r)
+  | .addContentTypePart i k => .ok ({ s.1 with ct := addContentTypePart s.1.ct i k }, s.2)
+  | .removeContentTypesPart c p => (removeContentTypesPart s.1.ct c p).bind fun ct => .ok ({ s.1 with ct := ct }, s.2)
+  | .copyRels => .ok (s.1, copyRels s.2)
+
+def runAll (s : Book × List Rel) : List AllOp → Out (Book × List Rel)
+  | [] => .ok s
+  | o :: os => (stepAll s o).bind fun s' => runAll s' os
+
+def allOpOk : AllOp → Prop
+  | .addRel ty _ _ => uniqPart ty = none
+  | .removeContentTypesPart c _ => c ≠ ctWorksheet
+  | _ => True
+
+theorem maxRelNum_filter_le (l : List Rel) (p : Rel → Bool) (m : Int) : maxRelNum (l.filter p) m ≤ maxRelNum l m :=
+  maxRelNum_sublist' List.filter_sublist m
+
+/-- `wf_reachable_all`: ONE induction over histories of the whole modelled class list — NewSheet,
+DeleteSheet, addRels / deleteSheetRelationships on a worksheet's relationships,
+addContentTypePart for every kind (tables, drawings, media defaults, comments, vml, charts,
+pivots, slicers …), removeContentTypesPart for every non-worksheet content type, CopySheet's
+relationship copy — from a `BookOk` workbook and a unique-id relationship list: nothing panics,
+and at the end the workbook is `BookOk` (hence `sheet_parts_bijective`, unique relationship ids,
+one Override per part) and the worksheet's relationship ids are unique. -/
+theorem wf_reachable_all (ops : List AllOp) (s : Book × List Rel)
+    (h : BookOk s.1) (hr : relsOk s.2) (hops : ∀ o ∈ ops, allOpOk o)
+    (hno : maxRelNum s.1.wbRels 0 + ops.length < 9223372036854775808)
+    (hid : maxSheetId s.1.sheets 0 + ops.length < 9223372036854775807)
+    (hsr : maxRelNum s.2 0 + ops.length < 9223372036854775808) :
+    ∃ s', runAll s ops = .ok s' ∧ BookOk s'.1 ∧ relsOk s'.2 := by
+  induction ops generalizing s with
+  | nil => exact ⟨s, rfl, h, hr⟩
+  | cons o os ih =>
+    have hlen : (o :: os).length = os.length + 1 := rfl
+    rw [hlen] at hno hid hsr
+    have hrest : ∀ o' ∈ os, allOpOk o' := fun o' ho' => hops o' (by simp [ho'])
+    cases o with
+    | newSheet n =>
+      have hb := newSheet_bounds s.1 n h (by omega) (by omega)
+      simp only [runAll, stepAll, Out.bind]
+      exact ih (newSheet s.1 n, s.2) (newSheet_ok s.1 n h (by omega) (by omega)) hr hrest (by simp only; omega) (by simp only; omega) (by simp only; omega)
+    | deleteSheet n =>
+      obtain ⟨b', hd, hok, hs1, hs2⟩ := deleteSheet_ok s.1 n h
+      simp only [runAll, stepAll, hd, Out.bind]
+      have := maxSheetId_sublist hs1 0
+      have := maxRelNum_sublist' hs2 0
+      exact ih (b', s.2) hok hr hrest (by simp only; omega) (by simp only; omega) (by simp only; omega)
+    | addRel ty tg md =>
+      have hu : uniqPart ty = none := hops (AllOp.addRel ty tg md) (by simp)
+      have hno1 : maxRelNum s.2 0 + 1 < 9223372036854775808 := by omega
+      obtain ⟨heq, _⟩ := rid_fresh s.2 ty tg md hu hno1
+      have hstep := (wf_step_addRel s.2 ty tg md hu hno1 hr).1
+      have hmax : maxRelNum (addRels s.2 ty tg md).1 0 ≤ maxRelNum s.2 0 + 1 := by
+        rw [heq]; exact maxRelNum_append_new s.2 ty tg md hno1
+      simp only [runAll, stepAll, Out.bind]
+      exact ih (s.1, (addRels s.2 ty tg md).1) h hstep hrest (by simp only; omega) (by simp only; omega) (by simp only; omega)
+    | deleteRel rid =>
+      obtain ⟨r', hd, hok', hsub, _, _⟩ := wf_step_deleteRel s.2 rid hr
+      simp only [runAll, stepAll, hd, Out.bind]
+      have := maxRelNum_sublist' hsub 0
+      exact ih (s.1, r') h hok' hrest (by simp only; omega) (by simp only; omega) (by simp only; omega)
+    | addContentTypePart i k =>
+      simp only [runAll, stepAll, Out.bind]
+      exact ih (_, s.2) (addCT_ok s.1 i k h (wf_step_addContentTypePart s.1.ct i k h.ct)) hr hrest
+        (by simp only; omega) (by simp only; omega) (by simp only; omega)
+    | removeContentTypesPart c p =>
+      have hne : c ≠ ctWorksheet := hops (AllOp.removeContentTypesPart c p) (by simp)
+      obtain ⟨ct', hd, hok'⟩ := removeCT_ok s.1 c p h hne
+      simp only [runAll, stepAll, hd, Out.bind]
+      exact ih (_, s.2) hok' hr hrest (by simp only; omega) (by simp only; omega) (by simp only; omega)
+    | copyRels =>
+      simp only [runAll, stepAll, Out.bind]
+      have := maxRelNum_filter_le s.2 (fun r => r.type != sl Facts.C05.relDrawing && r.type != sl Facts.C05.relTable) 0
+      exact ih (s.1, copyRels s.2) h (wf_step_copySheet s.2 hr).1 hrest (by simp only; omega) (by simp only; omega)
+        (by simp only [copyRels]; omega)
+
 /-- non-vacuity: the template satisfies the hypotheses of `wf_reachable_book` -/
 example : BookOk initBook ∧ maxRelNum initBook.wbRels 0 = 3 ∧ maxSheetId initBook.sheets 0 = 1 :=
   ⟨wf_init_book, by decide +kernel, by decide +kernel⟩
